@@ -33,6 +33,7 @@ fixed = [
     "fixed: property=C09 f5cd632 't = {{#if a}}x{{/if}}{{> t}}' was not reported as CannotIncludeSelf and overflowed the stack (also C05, C08) – F4",
     "fixed: property=C18 a9dc236 InvalidParam compile errors ({{foo 1.}}) had no template name or position – F10",
     "fixed: property=C12 8faffaa a nested partial that starts a line of an indented partial without being standalone, or is the first thing written, lost the indentation of its first line – F13, F16",
+    "fixed: property=C10 29c8d6e after a decorator replaced the context a missing path was delivered as null: strict mode accepted {{nope}} and missing helper arguments – F17",
     "fixed: property=C18 4485eb0 an error inside an inline partial / partial-block body was labelled with the including partial's name – F9",
 ]
 for k in known:
